@@ -165,7 +165,7 @@ def handle : Handler := fun cas obs =>
           if apps.any isJson && orders.isNone && implResult ≠ "PANIC:harness" then badCase "MDC order facts missing" else
           let head := d ++ " " ++ p ++ " " ++ t ++ " "
           let valid := validB routing
-          let wf := apps.all (fun a => isJson a || wfPats C11.profile.wordBits false a.ast)
+          let wf := apps.all (fun a => isJson a || wfB C11.profile a.ast)
           -- the model
           let model :=
             if !valid then "INVALID"
@@ -366,7 +366,7 @@ def handle2 : Handler := fun cas obs =>
             let mops := specOpsL.map SpecOp.toOp
             let head := d ++ " " ++ p ++ " " ++ t ++ " "
             let valid := cfgs.all fun c => validB c.routing && pathsInj c && c.apps.all (fun x => x.path < np)
-            let wf := allApps.all (fun a => isJson a || wfPats C11.profile.wordBits false a.ast)
+            let wf := allApps.all (fun a => isJson a || wfB C11.profile a.ast)
             let model :=
               if !valid then "INVALID"
               else if snap then renderWorlds np (sysTraceOps fs0 b0.b mops)
